@@ -526,6 +526,21 @@ def check(ctx):
     ctx.import_clauses("C10", {"C10.t", "C10.a", "C10.b"}, "C09.g", pick=lambda s: s.startswith(("Updater", "Accumulator")), minimum=6)
     ctx.import_clauses("C15", {"C15.f"}, "C09.h", minimum=10)
 
+    # ---------------- (i) homeostasis: the branch for parameter p hands its parts to the updater of p, and only p
+    hf = P.cls("LinearHomeostasis").methods["forward"]
+    nrt = 0
+    for n in ast.walk(hf.node):
+        if isinstance(n, ast.If) and isinstance(n.test, ast.Compare) and len(n.test.ops) == 1 and isinstance(n.test.ops[0], ast.Eq):
+            sides = [n.test.left, n.test.comparators[0]]
+            lit = [x.value for x in sides if isinstance(x, ast.Constant) and isinstance(x.value, str)]
+            if len(lit) == 1 and any(dotted(x) == "state.param" for x in sides):
+                nrt += 1
+                tg = sorted({t.attr for st in n.body for a_ in ast.walk(st) if isinstance(a_, ast.Assign) for t in a_.targets
+                             if isinstance(t, ast.Attribute) and dotted(t.value) == "cell.updater"})
+                ctx.ob("C09.i", f"LinearHomeostasis.forward: the '{lit[0]}' branch updates cell.updater.{lit[0]}", tg == [lit[0]],
+                       f"updates {tg}", P.loc(hf, n), n)
+    ctx.require("C09.i", "homeostasis parameter branches", nrt, 3)
+
 
 
 def _tree_sign(t, assume):
